@@ -1022,6 +1022,9 @@ def f_gen():
                              [t("zsync", [{"short": [], "long": b("zdest"), "lvaliases": [], "takes": True, "hint": "dir",
                                            "pvs": [{"name": b("zhere"), "hide": False}, {"name": b("zthere"), "hide": False}]},
                                           {"short": [], "long": b("zfile"), "lvaliases": [], "takes": True, "hint": "file", "pvs": []}])])),
+        # a hand-written `help` subcommand (the generated one disabled) still gets the global options
+        g("user-help-subcommand", dict(t("prog", [dict(o("g", "zglobal"), **{"global": True})],
+                                         [t("help", [o("x", "zhelpopt")]), t("zrun", [o("r", "zrunopt")])]), nohelpsub=True)),
         # recorded witness classes
         g("mangle-collision", t("prog", [], [t("my-sub", [o("p", "zmysubopt")]), t("my", [o("q", "zmyopt")], [t("sub", [o("r", "zsubopt")])])])),
         g("double-underscore-name", t("prog", [], [t("a__b", [o("p", "zaubopt")]), t("zc")])),
@@ -1031,6 +1034,8 @@ def f_gen():
             for op in x["opts"]:
                 op.setdefault("optional", False)
                 op.setdefault("hint", "")
+                op.setdefault("global", False)
+            x.setdefault("nohelpsub", False)
             for sx in x["subs"]:
                 fill(sx)
         fill(d["tree"])
